@@ -34,3 +34,17 @@ package graphsync
 //@   assumed
 //@   modifies nothing
 //@   ensures result == tagOf(r)
+
+//@ -- ============================ C12: request IDs taken from the wire ============================
+//@ fn ridBytesLen(id ref) int                 -- number of bytes a request ID holds (the type is an opaque value here)
+//@ -- google/uuid v1.6.0 FromBytes = UnmarshalBinary: an error exactly when the input is not 16 bytes long
+//@ func github.com/google/uuid.FromBytes
+//@   assumed
+//@   modifies nothing
+//@   ensures (result1 == nil) <==> (len(b) == 16)
+//@ -- only 16-byte strings become request IDs
+//@ func ParseRequestID
+//@   modifies nothing
+//@   ensures result1 == nil ==> len(b) == 16
+//@   ensures len(b) == 16 ==> result1 == nil
+//@   trusts result1 == nil ==> ridBytesLen(result0) == len(b)
